@@ -10,5 +10,7 @@ CONSTANTS
   MutTCLessEq = FALSE
   MutCeilDivAdd = FALSE
   MutClampLess = FALSE
+  IntervalTouchBug = FALSE
+  MutConvZeroExtend = FALSE
 INVARIANTS ImplEqualsDefinition NoUB
 CHECK_DEADLOCK FALSE
